@@ -18,7 +18,7 @@ Proof. reflexivity. Qed.
 Lemma digits_no_lb : forall s, forallb is_digit s = true -> no_lb s = true.
 Proof.
   intros s H. unfold no_lb. apply (forallb_impl is_digit); [|exact H].
-  intros x Hx. unfold is_digit in Hx. unfold is_linebreak. lia.
+  intros x Hx. unfold is_digit in Hx. lia.
 Qed.
 
 Lemma no_lb_app : forall a b, no_lb (a ++ b) = no_lb a && no_lb b.
@@ -134,7 +134,7 @@ Proof.
   rewrite !no_lb_app. cbn [no_lb forallb].
   fold (no_lb (padded (mc_pad0 c) (mc_n0 c))). fold (no_lb (padded (mc_pad1 c) (mc_n1 c))).
   rewrite !digits_no_lb by (apply padded_digits; lia).
-  change (is_linebreak 123) with false. change (is_linebreak 125) with false. cbn [negb andb].
+  change ((123 =? 10) || (123 =? 13)) with false. change ((125 =? 10) || (125 =? 13)) with false. cbn [negb andb].
   fold (no_lb (join [124] (mc_lines c))).
   induction (mc_lines c) as [|l ls IH]; [reflexivity|].
   cbn [forallb] in Hl. apply andb_true_iff in Hl. destruct Hl as [Hl1 Hl2].
@@ -168,11 +168,11 @@ Proof.
     { unfold fps_render. unfold fps_dom in Hf.
       apply andb_true_iff in Hf. destruct Hf as [Hf _]. apply andb_true_iff in Hf. destruct Hf as [Hip Hfr].
       change (brace (lit "0")) with [123; 48; 125]. cbn [app no_lb forallb].
-      change (is_linebreak 123) with false. change (is_linebreak 48) with false. change (is_linebreak 125) with false.
+      change ((123 =? 10) || (123 =? 13)) with false. change ((48 =? 10) || (48 =? 13)) with false. change ((125 =? 10) || (125 =? 13)) with false.
       cbn [negb andb]. fold (no_lb (padded (fp_pad l) (fp_ip l) ++ match fp_fr l with [] => [] | _ :: _ => 46 :: digits_str (fp_fr l) end)).
       rewrite no_lb_app. rewrite digits_no_lb by (apply padded_digits; lia).
       destruct (fp_fr l) as [|d ds] eqn:EF; [reflexivity|].
-      cbn [no_lb forallb]. change (is_linebreak 46) with false. cbn [negb andb].
+      cbn [no_lb forallb]. change ((46 =? 10) || (46 =? 13)) with false. cbn [negb andb].
       fold (no_lb (digits_str (d :: ds))). apply digits_no_lb. apply digits_str_digits. exact Hfr. }
     assert (ML : mdvd_line (brace (lit "0") ++ brace (lit "0") ++ fps_render l) = Some (lit "0", lit "0", fps_render l))
       by (apply mdvd_line_render; first [discriminate|reflexivity]).
@@ -555,7 +555,7 @@ Proof.
   rewrite digits_no_lb by (apply dec_nonneg_digits; lia).
   assert (ST : forall t, srt_stamp_dom t = true -> no_lb (srt_render_stamp t) = true).
   { intros t Ht. unfold no_lb. apply (forallb_impl srt_char); [|apply srt_render_chars; exact Ht].
-    intros x Hx. unfold srt_char, is_digit in Hx. unfold is_linebreak. lia. }
+    intros x Hx. unfold srt_char, is_digit in Hx. lia. }
   unfold srt_timing. rewrite !no_lb_app. rewrite (ST _ H0), (ST _ H1).
   change (no_lb arrow) with true. cbn [andb].
   rewrite forallb_app. apply andb_true_iff. split.
@@ -600,12 +600,11 @@ Proof.
 Qed.
 
 Definition vtt_timing (c : vtt_cue) : str :=
-  vtt_render_stamp (vc_t0 c) ++ arrow ++ vtt_render_stamp (vc_t1 c)
+  vtt_render_stamp (vc_t0 c) ++ vc_ws1 c ++ lit "-->" ++ vc_ws2 c ++ vtt_render_stamp (vc_t1 c)
   ++ match vc_settings c with Some s => 32 :: s | None => [] end.
 
 Definition vtt_cue_lines (c : vtt_cue) : list str :=
-  match vc_id c with Some i => [i] | None => [] end
-  ++ vtt_timing c :: vc_lines c ++ repeat [] (S (vc_gap c)).
+  vc_pre c ++ vtt_timing c :: vc_lines c ++ repeat [] (S (vc_gap c)).
 
 Lemma vtt_step_text : forall strict sh caps s e nodes l,
   is_infix (lit "-->") l = false -> l <> [] ->
@@ -643,6 +642,17 @@ Proof.
   cbn [repeat vtt_loop]. rewrite vtt_step_idle by reflexivity. cbn [bind]. apply IH.
 Qed.
 
+Lemma vtt_loop_idle : forall strict sh ls caps s e,
+  forallb (fun l => no_linebreak l && no_arrow l) ls = true ->
+  vtt_loop strict sh ls (mkVS caps s e [] false) = Ok (mkVS caps s e [] false).
+Proof.
+  induction ls as [|l ls IH]; intros caps s e H; [reflexivity|].
+  cbn [forallb] in H. apply andb_true_iff in H. destruct H as [Hl Hls].
+  apply andb_true_iff in Hl. destruct Hl as [_ Hna]. unfold no_arrow in Hna.
+  cbn [vtt_loop]. rewrite vtt_step_idle by (destruct (is_infix (lit "-->") l); [discriminate|reflexivity]).
+  cbn [bind]. apply IH. exact Hls.
+Qed.
+
 Lemma vtt_loop_blanks_flush : forall strict sh g caps s e nodes, nodes <> [] ->
   vtt_loop strict sh (repeat [] (S g)) (mkVS caps s e nodes true)
   = Ok (mkVS (caps ++ [(s, e, nodes)]) s e [] false).
@@ -667,27 +677,23 @@ Lemma vtt_cue_process : forall strict sh c caps s0 e0 lo,
              (us (vtt_shifted sh (vc_t0 c))) (us (vtt_shifted sh (vc_t1 c))) [] false).
 Proof.
   intros strict sh c caps s0 e0 lo Hd Hlast Hord. unfold vtt_cue_dom in Hd.
+  apply andb_true_iff in Hd. destruct Hd as [Hd W2].
+  apply andb_true_iff in Hd. destruct Hd as [Hd W1].
   apply andb_true_iff in Hd. destruct Hd as [Hd Hset].
-  apply andb_true_iff in Hd. destruct Hd as [Hd Hid].
+  apply andb_true_iff in Hd. destruct Hd as [Hd Hpre].
   apply andb_true_iff in Hd. destruct Hd as [Hd Hne].
   apply andb_true_iff in Hd. destruct Hd as [Hd Hl].
   apply andb_true_iff in Hd. destruct Hd as [H0 H1].
   unfold vtt_cue_lines. rewrite vtt_loop_app.
-  assert (ID : vtt_loop strict (sh * 1000) (match vc_id c with Some i => [i] | None => [] end) (mkVS caps s0 e0 [] false)
-               = Ok (mkVS caps s0 e0 [] false)).
-  { destruct (vc_id c) as [i|]; [|reflexivity]. cbn [vtt_loop].
-    apply andb_true_iff in Hid. destruct Hid as [_ Hna]. unfold no_arrow in Hna.
-    rewrite vtt_step_idle by (destruct (is_infix (lit "-->") i); [discriminate|reflexivity]). reflexivity. }
-  rewrite ID. cbn [bind vtt_loop].
+  rewrite vtt_loop_idle by exact Hpre. cbn [bind vtt_loop].
   (* the timing line *)
   assert (TL : vtt_step strict (sh * 1000) (mkVS caps s0 e0 [] false) (vtt_timing c)
                = Ok (mkVS caps (us (vtt_shifted sh (vc_t0 c))) (us (vtt_shifted sh (vc_t1 c))) [] true)).
   { unfold vtt_step.
     assert (INF : is_infix (lit "-->") (vtt_timing c) = true).
-    { unfold vtt_timing. change arrow with ([32] ++ lit "-->" ++ [32]).
-      rewrite <- !app_assoc. rewrite app_assoc. apply is_infix_hit. }
+    { unfold vtt_timing. rewrite app_assoc. rewrite <- !app_assoc. rewrite app_assoc. apply is_infix_hit. }
     rewrite INF. cbn [vs_caps vs_nodes]. unfold vtt_timing.
-    rewrite (vtt_timing_exact strict (sh * 1000) (vc_t0 c) (vc_t1 c) _ (last_start caps) H0 H1).
+    rewrite (vtt_timing_exact strict (sh * 1000) (vc_t0 c) (vc_t1 c) (vc_ws1 c) (vc_ws2 c) _ (last_start caps) H0 H1 W1 W2).
     - cbn [bind fst snd]. rewrite !vtt_shift_exact. reflexivity.
     - destruct (vc_settings c); [right; eexists; reflexivity|left; reflexivity].
     - intros Hs. specialize (Hord Hs). rewrite !vtt_shift_exact in Hord. rewrite Hlast. exact Hord. }
@@ -708,6 +714,7 @@ Proof.
   - cbn [forallb] in Hd. apply andb_true_iff in Hd. destruct Hd as [Hc Ht].
     assert (Hne : vc_lines c <> []).
     { unfold vtt_cue_dom in Hc. apply andb_true_iff in Hc. destruct Hc as [Hc _].
+      apply andb_true_iff in Hc. destruct Hc as [Hc _]. apply andb_true_iff in Hc. destruct Hc as [Hc _].
       apply andb_true_iff in Hc. destruct Hc as [Hc _]. apply andb_true_iff in Hc. destruct Hc as [_ Hne].
       destruct (vc_lines c); [discriminate Hne|discriminate]. }
     cbn [flat_map]. rewrite vtt_loop_app.
@@ -729,7 +736,7 @@ Lemma vtt_render_cue_lines : forall crlf c,
 Proof.
   intros crlf c. unfold vtt_render_cue, vtt_cue_lines, vtt_timing, render_lines. rewrite !nl_is_nl_of.
   rewrite flat_map_app. cbn [flat_map]. rewrite flat_map_app. rewrite blank_lines_render.
-  destruct (vc_id c); cbn [flat_map app]; rewrite <- !app_assoc; reflexivity.
+  rewrite <- !app_assoc. reflexivity.
 Qed.
 
 Lemma vtt_render_cues_lines : forall crlf cues,
@@ -748,26 +755,35 @@ Proof.
   cbn [flat_map app]. rewrite <- !app_assoc. reflexivity.
 Qed.
 
+Lemma blank_run_no_lb : forall w, blank_run w = true -> no_lb w = true.
+Proof.
+  intros w H. unfold blank_run in H. destruct w as [|c r]; [discriminate|].
+  unfold no_lb. apply (forallb_impl (fun x => (x =? 32) || (x =? 9))); [|exact H].
+  intros x Hx. lia.
+Qed.
+
 Lemma vtt_cue_lines_no_lb : forall c, vtt_cue_dom c = true -> forallb no_lb (vtt_cue_lines c) = true.
 Proof.
   intros c Hd. unfold vtt_cue_dom in Hd.
+  apply andb_true_iff in Hd. destruct Hd as [Hd W2].
+  apply andb_true_iff in Hd. destruct Hd as [Hd W1].
   apply andb_true_iff in Hd. destruct Hd as [Hd Hset].
-  apply andb_true_iff in Hd. destruct Hd as [Hd Hid].
+  apply andb_true_iff in Hd. destruct Hd as [Hd Hpre].
   apply andb_true_iff in Hd. destruct Hd as [Hd Hne].
   apply andb_true_iff in Hd. destruct Hd as [Hd Hl].
   apply andb_true_iff in Hd. destruct Hd as [H0 H1].
   unfold vtt_cue_lines. rewrite forallb_app. apply andb_true_iff. split.
-  - destruct (vc_id c) as [i|]; [|reflexivity]. cbn [forallb].
-    apply andb_true_iff in Hid. destruct Hid as [Hok _]. unfold text_line_ok in Hok.
-    apply andb_true_iff in Hok. destruct Hok as [Hn _]. rewrite no_linebreak_no_lb in Hn. rewrite Hn. reflexivity.
+  - apply forallb_forall. intros l Hin. rewrite forallb_forall in Hpre. specialize (Hpre l Hin).
+    apply andb_true_iff in Hpre. destruct Hpre as [Hn _]. exact Hn.
   - cbn [forallb].
     assert (ST : forall t, vtt_stamp_dom t = true -> no_lb (vtt_render_stamp t) = true).
     { intros t Ht. unfold no_lb. apply (forallb_impl stamp_char); [|apply vtt_render_chars; exact Ht].
-      intros x Hx. unfold stamp_char in Hx. unfold is_linebreak. lia. }
-    unfold vtt_timing. rewrite !no_lb_app. rewrite (ST _ H0), (ST _ H1). change (no_lb arrow) with true. cbn [andb].
+      intros x Hx. unfold stamp_char in Hx. lia. }
+    unfold vtt_timing. rewrite !no_lb_app. rewrite (ST _ H0), (ST _ H1).
+    rewrite (blank_run_no_lb _ W1), (blank_run_no_lb _ W2). change (no_lb (lit "-->")) with true. cbn [andb].
     assert (SS : no_lb (match vc_settings c with Some s => 32 :: s | None => [] end) = true).
     { destruct (vc_settings c) as [s|]; [|reflexivity]. apply andb_true_iff in Hset. destruct Hset as [Hn _].
-      cbn [no_lb forallb]. change (is_linebreak 32) with false. cbn [negb andb]. exact Hn. }
+      cbn [no_lb forallb]. change ((32 =? 10) || (32 =? 13)) with false. cbn [negb andb]. exact Hn. }
     apply andb_true_iff. split; [exact SS|]. rewrite forallb_app. apply andb_true_iff. split.
     + apply forallb_forall. intros l Hin. rewrite forallb_forall in Hl. specialize (Hl l Hin).
       apply andb_true_iff in Hl. destruct Hl as [Hok _]. unfold text_line_ok in Hok.
